@@ -47,3 +47,22 @@ Theorem C04_rule_codes_distinct :
   nodupb (map (fun r => snd (fst (fst (fst (fst r))))) code_table) = true.
 Proof. exact rule_codes_distinct. Qed.
 Print Assumptions C04_rule_codes_distinct.
+
+From V Require Import Pipeline.Sequential.
+(* the sequential rule loop: if every rule only appends its own findings (a function of the immutable parsed file,
+   each carrying the rule's own code) and leaves the traverse flag clear, the context after all rules is the
+   concatenation of the rules' own findings ... *)
+Theorem C04_run_all_spec : forall (F : Type) (run_rule : str -> F -> rctx -> rctx) (own : str -> F -> list diag),
+  (forall r f c, rc_flag c = false -> run_rule r f c = mkRctx (rc_diags c ++ own r f) false) ->
+  forall rules f, run_all F run_rule rules f = mkRctx (flat_map (fun r => own r f) rules) false.
+Proof. exact run_all_spec. Qed.
+Print Assumptions C04_run_all_spec.
+
+(* ... so a rule contributes exactly the same diagnostics alone or together with any other rules, in any order *)
+Theorem C04_alone_or_together : forall (F : Type) (run_rule : str -> F -> rctx -> rctx) (own : str -> F -> list diag),
+  (forall r f c, rc_flag c = false -> run_rule r f c = mkRctx (rc_diags c ++ own r f) false) ->
+  (forall r f d, In d (own r f) -> d_code d = r) ->
+  forall rules f r, NoDup rules -> In r rules ->
+  filter (has_code r) (rc_diags (run_all F run_rule rules f)) = filter (has_code r) (rc_diags (run_all F run_rule [r] f)).
+Proof. exact alone_or_together. Qed.
+Print Assumptions C04_alone_or_together.
